@@ -227,7 +227,10 @@ def run_impl(pym, prob):
     kw = dict(prob['params'])
     for k in ('xmin', 'xmax'):
         if isinstance(kw.get(k), list):
-            kw[k] = np.array(kw[k], dtype=float)
+            kw[k] = bounds_object(kw[k], prob.get('bounds_as', 'array'))
+    # caller-owned objects (re-inspected after the run and after LATER runs): the bound vectors and the initial state arrays
+    owned = [[k, kw[k], np.array(kw[k], dtype=float).copy()] for k in ('xmin', 'xmax') if isinstance(kw.get(k), (np.ndarray, list, tuple))]
+    owned += [[f'initial state of x{i}', s.state, np.array(s.state).copy()] for i, s in enumerate(sigs) if isinstance(s.state, np.ndarray)]
     err = None
     orig_norm = np.linalg.norm
 
@@ -272,7 +275,69 @@ def run_impl(pym, prob):
     wc = rec['wcount'] + [total_w]
     rec['warns'] = [wc[k + 1] - wc[k] > 0 for k in range(len(rec['sens']))]
     rec['err'] = err
+    rec['held'] = dict(sigs=sigs, owned=owned, fsig=fsig)
     return rec
+
+
+def bounds_object(vals, how):
+    """a per-variable bound vector in the memory layout / container the caller may own it in"""
+    if how == 'list':
+        return [float(v) for v in vals]
+    if how == 'tuple':
+        return tuple(float(v) for v in vals)
+    if how == 'strided':                     # every second entry of a longer array (non-contiguous view)
+        base = np.full(2 * len(vals), -7.0)
+        base[::2] = vals
+        return base[::2]
+    if how == 'readonly':
+        a = np.array(vals, dtype=float)
+        a.setflags(write=False)
+        return a
+    return np.array(vals, dtype=float)
+
+
+class Ledger:
+    """everything earlier runs of this process left behind: the variable signals with their final states and the caller-owned
+    arrays; re-inspected after later runs (a finished optimisation must keep its result, whatever is optimised afterwards)"""
+
+    def __init__(self):
+        self.items = []
+
+    def add(self, cls, prob, rec, hits):
+        held = rec.pop('held')
+        info = dict(problem=prob, designs=[], history='caller-owned arrays after the run')
+        for ow in held['owned']:
+            name, obj, snap = ow
+            if not np.array_equal(np.array(obj, dtype=float), snap):
+                hits.append((info, 'caller-owned arrays (bounds, initial states) are not modified',
+                             f'{name} was {snap.tolist()} before the run and is {np.array(obj, dtype=float).tolist()} afterwards',
+                             'caller-owned arrays'))
+                ow[2] = np.array(obj, dtype=float).copy()
+        snap = [None if s.state is None else np.array(s.state).copy() for s in held['sigs']]
+        self.items.append(dict(cls=cls, prob=prob, sigs=held['sigs'], owned=held['owned'], snap=snap, final=rec['final'],
+                               fsig=held['fsig'], f=held['fsig'].state))
+
+    def inspect(self, ctx, hits, last=None, after=None):
+        items = self.items if last is None else self.items[-last - 1:-1]
+        for pos, it in enumerate(items):
+            ctx.search_evaluations += 1
+            info = dict(problem=it['prob'], designs=[], history=f'{len(self.items)} runs in this process; re-inspected after: {after}')
+            for i, (s, sn) in enumerate(zip(it['sigs'], it['snap'])):
+                now = None if s.state is None else np.array(s.state)
+                same = (now is None and sn is None) or (now is not None and sn is not None and now.shape == sn.shape and now.dtype == sn.dtype
+                                                       and np.array_equal(now, sn, equal_nan=True))
+                if not same:
+                    hits.append((info, 'final design of a finished run stays in its variable signals (re-inspected after later runs)',
+                                 f'signal x{i} held {None if sn is None else sn.tolist()} when its run ended and holds '
+                                 f'{None if now is None else now.tolist()} after later runs', 'several minimize_oc runs in one process'))
+                    it['snap'][i] = None if now is None else now.copy()       # report once
+            for ow in it['owned']:
+                name, obj, snap = ow
+                if not np.array_equal(np.array(obj, dtype=float), snap):
+                    hits.append((info, 'caller-owned arrays (bounds, initial states) are not modified',
+                                 f'{name} was {snap.tolist()} and is {np.array(obj, dtype=float).tolist()} after later runs',
+                                 'several minimize_oc runs in one process'))
+                    ow[2] = np.array(obj, dtype=float).copy()               # report once
 
 
 def coq_params(prob):
@@ -369,6 +434,14 @@ def gen_problem(rng, cls, thorough, state_nums=None):
         if state_nums is not None:       # float32 starting values have more than three decimals: keep them inside the box
             params['xmin'] = np.minimum(params['xmin'], x0).tolist()
             params['xmax'] = np.maximum(params['xmax'], x0).tolist()
+        if rng.random() < 0.45:          # frozen (passive) variables: xmin[i] == xmax[i] == x0[i] for some / most / all entries
+            fz = rng.random(n) < float(rng.choice([0.25, 0.5, 0.8, 1.0]))
+            if not fz.any():
+                fz[int(rng.integers(n))] = True
+            params['xmin'] = np.where(fz, x0, params['xmin']).tolist()
+            params['xmax'] = np.where(fz, x0, params['xmax']).tolist()
+            prob['frozen'] = 'all' if fz.all() else 'some'
+            prob['bounds_as'] = str(rng.choice(['array', 'array', 'list', 'tuple', 'strided', 'readonly']))
     if kind in ('inv', 'pow') and 'xmin' not in params:
         params['xmin'] = 0.01
         params['xmax'] = 1.0
@@ -644,6 +717,81 @@ def convergence_stress(rng):
     return out
 
 
+def frozen_stress(rng):
+    """deliberately chosen problems with FROZEN variables (xmin[i] == xmax[i]: passive solid / void / intermediate entries), run on
+    every seed: frozen entries alone, mixed with free ones in the same signal, a whole signal frozen, all but one, all; the start has
+    the prescribed volume (also through the default maxvol) or the target lies below / above it within the move limits; move limits
+    0.15 / 0.05 / 0.5; four objective families; bounds handed over as array / list / tuple / strided view / read-only array.
+    The volume clause is evaluated on the FULL design vector (frozen entries included)."""
+    out = []
+    layouts = ['one', 'two', 'three', 'scalars+array', 'four']
+    containers = ['array', 'list', 'strided', 'tuple', 'readonly']
+    patterns = ('solid-first-of-each-signal', 'solid-some', 'void-some', 'mid-some', 'solid+void', 'zero-some', 'whole-signal',
+                'all-but-one', 'all', 'single-variable')
+    k = 0
+    for pattern in patterns:
+        for move in (0.15, 0.05, 0.5):
+            for volk in ('start-volume', 'default', 'lower', 'higher'):
+                k += 1
+                n = 1 if pattern == 'single-variable' else (8, 5, 6, 3, 7, 4)[k % 6]
+                layout = layouts[k % 5]
+                c = np.round(rng.uniform(1.0, 9.0, n), 2)
+                x0 = np.round(rng.uniform(0.25, 0.6, n), 2) if k % 2 else np.full(n, 0.4)
+                sizes = [int(np.size(v['value'])) for v in split_vars(rng, x0, layout)]
+                firsts = np.concatenate([[0], np.cumsum(sizes)[:-1]]).astype(int)
+                fz = np.zeros(n, dtype=bool)
+                val = np.full(n, 1.0)
+                if pattern == 'solid-first-of-each-signal':
+                    fz[firsts] = True
+                elif pattern in ('solid-some', 'void-some', 'mid-some', 'solid+void', 'zero-some'):
+                    fz[rng.permutation(n)[:max(1, n // 3)]] = True
+                    if pattern == 'void-some':
+                        val[:] = 0.01
+                    elif pattern == 'mid-some':
+                        val = np.round(rng.uniform(0.3, 0.8, n), 2)
+                    elif pattern == 'solid+void':
+                        val = np.where(np.arange(n) % 2 == 0, 1.0, 0.01)
+                    elif pattern == 'zero-some':
+                        val[:] = 0.0
+                elif pattern == 'whole-signal':
+                    j = k % len(sizes)
+                    fz[firsts[j]:firsts[j] + sizes[j]] = True
+                    val = np.round(rng.uniform(0.3, 1.0, n), 2)
+                elif pattern == 'all-but-one':
+                    fz[:] = True
+                    fz[k % n] = n == 1
+                    val = np.round(rng.uniform(0.3, 1.0, n), 2)
+                else:                                   # 'all', 'single-variable'
+                    fz[:] = True
+                    val = np.round(rng.uniform(0.3, 1.0, n), 2)
+                x0 = np.where(fz, val, x0)
+                xmin, xmax = np.where(fz, x0, 0.01), np.where(fz, x0, 1.0)
+                kind = 'lin' if pattern == 'zero-some' and k % 2 else 'exp' if pattern == 'zero-some' else ('inv', 'pow', 'inv', 'exp', 'lin')[k % 5]
+                nfree = int((~fz).sum())
+                params = dict(xmin=xmin.tolist(), xmax=xmax.tolist(), move=move, maxit=6)
+                if volk == 'start-volume':
+                    params['maxvol'] = float(np.sum(x0))
+                elif volk == 'lower':
+                    params['maxvol'] = float(np.round(np.sum(x0) - 0.4 * min(move, 0.2) * nfree, 4))
+                elif volk == 'higher':
+                    params['maxvol'] = float(np.round(np.sum(x0) + 0.4 * min(move, 0.2) * nfree, 4))
+                if k % 3 == 0:
+                    params.update(tolf=0.0, tolx=0.0)
+                prob = dict(vars=split_vars(rng, x0, layout), objective=kind, c=c.tolist(), params=params,
+                            maxvol_kind='default' if volk == 'default' else 'given', frozen=pattern, volume=volk,
+                            bounds_as=containers[k % 5])
+                if kind == 'pow':
+                    prob['p'] = (2.0, 0.5, 3.0)[k % 3]
+                if len(prob['vars']) > 1 and k % 7 == 0:
+                    prob['none_sens'] = [k % len(prob['vars'])]
+                if kind == 'inv' and volk in ('start-volume', 'default') and nfree >= 2 and 'none_sens' not in prob:
+                    # the separable problem with passive entries: analytic optimum x_i = clip(sqrt(c_i/lam), xmin_i, xmax_i)
+                    params.update(maxit=80, tolf=1e-12, tolx=1e-7)
+                    prob.update(convergence_check=True, start='frozen variables, start feasible')
+                out.append(prob)
+    return out
+
+
 def convergence_problem(rng):
     """sum c_i/x_i with an interior optimum, enough iterations"""
     n = int(rng.integers(2, 8))
@@ -790,6 +938,14 @@ def run(ctx):
         problems.append(('convergence-stress', cp))
         ctx.count('convergence-stress:' + cp['start'] + ':' + cp['tolerances'])
 
+    for fp in frozen_stress(rng):
+        problems.append(('frozen-stress', fp))
+    # the same problems once more at the end of the process (after ~700 other runs): same trajectory as the first time
+    repeats = [(c + ':again', json.loads(json.dumps(pb))) for c, pb in problems if c in ('frozen-stress', 'convergence-stress')][::5]
+    problems += repeats
+
+    ledger = Ledger()
+    first_run = {}
     import pymoto.utils as putils
     DT = {'int32': 'MMAvars.I32', 'int64': 'MMAvars.I64', 'float32': 'MMAvars.F32', 'float64': 'MMAvars.F64'}
     checks, labels, hits = [], [], []
@@ -812,6 +968,21 @@ def run(ctx):
         for v in prob['vars']:
             ctx.count('state_kind=' + ('none' if v['kind'] == 'none' else v.get('num') or ('pyfloat' if v['kind'] == 'scalar' else 'f64')))
         rec = run_impl(pym, prob)
+        ledger.add(cls, prob, rec, hits)
+        ledger.inspect(ctx, hits, last=3, after=cls)          # the three runs before this one still hold their results
+        if prob.get('frozen'):
+            ctx.count(f'frozen:{prob["frozen"]}')
+            ctx.count('bounds_as:' + prob.get('bounds_as', 'array'))
+        if cls in ('frozen-stress', 'convergence-stress'):
+            first_run[json.dumps(prob, sort_keys=True)] = (rec['states'], rec['final'], rec['err'])
+        elif cls.endswith(':again'):
+            ctx.search_evaluations += 1
+            ref = first_run[json.dumps(prob, sort_keys=True)]
+            if ref != (rec['states'], rec['final'], rec['err']):
+                hits.append((dict(problem=prob, designs=[], history='run at the start of the process and again after all other runs'),
+                             'the same problem gives the same designs whenever it is run in the process',
+                             f'first run: final {ref[1]}, error {ref[2]}; repeated run: final {rec["final"]}, error {rec["err"]}',
+                             'several minimize_oc runs in one process'))
         if borderline(prob, rec):
             ctx.count('discarded:borderline step-size test')
             continue
@@ -851,7 +1022,7 @@ def run(ctx):
         exp_warns = '[' + '; '.join(vlib.blit(w) for w in rec['warns']) + ']'
         expr = (f'run_ok {pr} {mv} {vars_c}\n  {O}\n  {zlit(errc)}\n  {exp_states}\n  {exp_warns} {psl(rec["final"])}'
                 f'\n  && flat_ok {pr} {mv} {vars_c} {O}')
-        nontrivial = rec['err'] is None and R >= 2
+        nontrivial = rec['err'] is None and R >= 2 and not cls.endswith(':again')      # a repeated run is not a new case
         key = json.dumps(prob, sort_keys=True)
         checks.append((n, expr))
         labels.append((cls, prob, dict(responses=R, sensitivities=S, err=rec['err'], warns=rec['warns'],
@@ -863,6 +1034,9 @@ def run(ctx):
             if flat and all(math.isfinite(t) for t in flat):
                 sum_checks.append(f'PrimFloat.eqb (np_sum {fl(flat)}) {fhex(float(np.sum(np.array(flat, dtype=float))))}')
         oracle(ctx, prob, rec, hits)
+
+    ledger.inspect(ctx, hits, after='all runs of the process')
+    ctx.extra['runs_reinspected_at_the_end'] = len(ledger.items)
 
     # extra validation of the summation model on random arrays of many lengths
     for n in list(range(1, 40)) + [63, 64, 65, 127, 128, 129, 130, 136, 137, 200, 255, 256, 257, 300]:
